@@ -141,6 +141,7 @@ def run(ctx, model=None):
     for k in range(12 if ctx.quick() else 200):
         check_case(ctx, gen.close_values_game(rng), model)
         check_case(ctx, gen.corridor_choice_game(rng), model)
+        check_case(ctx, gen.final_player_game(rng), model)
         for _ in range(3):
             check_case(ctx, gen.with_empty_action(gen.stopping_game(rng), rng), model)
         with impl.forced_debug():
